@@ -42,6 +42,30 @@ Inductive label :=
 | LSdRaise (k : nat)           (* shutdown() terminates with an exception (e.g. of a job): must never happen *)
 | LSdReturn (k : nat).         (* shutdown() RETURNS *)
 
+(* ---- exceptions of the process libraries (facts about subprocess / psutil, not about halmos;
+   cross-checked against the installed libraries on every run by translate/t_cancel.py) ----- *)
+Inductive exn_class := EcSubTimeout   (* subprocess.TimeoutExpired *)
+                     | EcPsTimeout    (* psutil.TimeoutExpired *)
+                     | EcNoProc       (* psutil.NoSuchProcess *)
+                     | EcAny.         (* Exception: catches each of the above *)
+Inductive receiver := RcPsutil (* psutil.Process *) | RcPopen (* subprocess.Popen *).
+
+(* does an except / suppress list catch an exception of class c?  (the three concrete classes
+   are unrelated by inheritance) *)
+Definition catches1 (h c : exn_class) : bool :=
+  match h, c with
+  | EcAny, _ => true
+  | EcSubTimeout, EcSubTimeout | EcPsTimeout, EcPsTimeout | EcNoProc, EcNoProc => true
+  | _, _ => false
+  end.
+Definition catches (hs : list exn_class) (c : exn_class) : bool := existsb (fun h => catches1 h c) hs.
+
+(* <obj>.wait(timeout=t) on a process that is still alive after t raises the TimeoutExpired of
+   the library <obj> belongs to; Popen.communicate(timeout=t) raises subprocess.TimeoutExpired *)
+Definition wait_timeout_exn (r : receiver) : exn_class :=
+  match r with RcPsutil => EcPsTimeout | RcPopen => EcSubTimeout end.
+Definition communicate_timeout_exn : exn_class := EcSubTimeout.
+
 Definition label_eq_dec : forall a b : label, {a = b} + {a <> b}.
 Proof. repeat decide equality. Defined.
 
